@@ -40,7 +40,11 @@ def panel(case):
     if case.get("container") == "numpy3d" and equal:
         X = np.array(cells, dtype="int64" if case.get("int_cells") else float)
     else:
-        X = pd.DataFrame({"dim_%d" % j: [pd.Series(cells[i][j].copy()) for i in range(n)] for j in range(c)})
+        # cells carry their own time labels; these transformers are defined by position, so a
+        # panel whose cells start at another label (a slice of longer recordings) gives the same values
+        o = case.get("cell_origin") or 0
+        X = pd.DataFrame({"dim_%d" % j: [pd.Series(cells[i][j].copy(), index=pd.RangeIndex(o, o + len(cells[i][j]))) for i in range(n)]
+                          for j in range(c)})
     return cells, X
 
 
@@ -553,6 +557,7 @@ def panel_cases(draw, unequal=False, max_c=3, min_len=2, extra=None):
     case["prefit"] = draw(st.sampled_from([None, None, -3, -1, 2, 5]))
     case["int_cells"] = draw(st.integers(0, 4)) == 0
     case["fit_other"] = draw(st.integers(0, 2)) == 0
+    case["cell_origin"] = draw(st.sampled_from([0, 0, 1, 7, 100]))
     return case
 
 
